@@ -97,7 +97,12 @@ impl<'a> Machine<'a> {
         for (pk, pi) in &case.inits {
             let poly = &plains[pick_idx(*pi, plains.len())];
             let pt = plaintext_of(w, &encoder, poly);
-            let ct = catch(|| if *pk { w.encryptor.encrypt_new(&pt) } else { w.encryptor.encrypt_symmetric_new(&pt).expand_seed_if_any(&w.context) })
+            // every other element after the first is encrypted through the destination form into a ciphertext that was used
+            // before: an earlier element moved one level down (other level, and in BGV another correction factor) when possible
+            let used: Option<Ciphertext> = if pi & 1 == 1 { pool.last().map(|e: &Elem| catch(|| w.evaluator.mod_switch_to_next_new(&e.ct)).unwrap_or_else(|_| e.ct.clone())) } else { None };
+            let ct = catch(|| match used {
+                Some(mut d) => { if *pk { w.encryptor.encrypt(&pt, &mut d); d } else { w.encryptor.encrypt_symmetric(&pt, &mut d); d.expand_seed_if_any(&w.context) } }
+                None => if *pk { w.encryptor.encrypt_new(&pt) } else { w.encryptor.encrypt_symmetric_new(&pt).expand_seed_if_any(&w.context) } })
                 .map_err(|p| format!("fresh encryption panicked: {p}"))?;
             let switched = *pk && w.context.first_context_data().unwrap().prev_context_data().is_some();
             pool.push(Elem { ntt: ct.is_ntt_form(), ct, msg: pad(poly, n), level: 0, size: 2, lv: nm.fresh(*pk, switched), depth: 0, fresh: true });
